@@ -13,6 +13,7 @@ import asyncio
 from harness import rt, pool
 
 _A = None
+_INTERESTING = {}
 FILES = None
 
 VALUES = {'n': None, 'z': 0, 'e': '', 'f': False, 'l': [], 'a': 'a', 'b': 'b', 'o': 1, 't': (1, 2)}
@@ -25,6 +26,8 @@ def worker_init():
     rt.patch_asyncio_module(A)
     _A = A
     FILES = pool.aiuti_files()
+    global _INTERESTING
+    _INTERESTING = {FILES['asyncio']: rt.interesting_lines(FILES['asyncio'])}
 
 
 class SrcError(Exception):
@@ -39,6 +42,7 @@ def execute(sc):
     ctl = rt.install(rt.Ctl(rt.make_strategy(sc.get('strategy', {'kind': 'replay', 'prefix': []})),
                             trace_files=[FILES['asyncio']] if trace else (),
                             max_steps=sc.get('max_steps', 40000)))
+    ctl.interesting = _INTERESTING
     asyncio.set_event_loop_policy(rt.VPolicy())
     src = sc['src']
     kind = src['kind']
